@@ -226,6 +226,16 @@ impl Ctx {
                     }
                 }
             }
+            OutMode::Link | OutMode::LinkBoth => {
+                if self.mode == OutMode::LinkBoth {
+                    write_all(1, bytes, 65536);
+                }
+                let dest = cstr(&link_dest(&self.arg1));
+                let c = cstr(&self.arg3);
+                unsafe {
+                    libc::symlink(dest.as_ptr(), c.as_ptr());
+                }
+            }
             OutMode::Rm3 => {
                 to_file(&self.arg3, false);
                 let c = cstr(&self.arg3);
